@@ -35,10 +35,34 @@ def corpus(pid, tier, seed):
     out += gen
     if pid in ("C03", "C06"):
         out += exprgen_programs(tier, seed)
+    if pid == "C18":
+        out += exprgen_programs(tier, seed, pairs=True) + small_int_programs()
     return out
 
 
-def exprgen_programs(tier, seed):
+def small_int_programs():
+    """functions over one or two Qint[2] (the sizes a quadratic model is enumerable for): every comparison against
+    every constant, alone and in pairs of constraints, and the arithmetic operators"""
+    out = []
+    cmps = ["==", "!=", "<", "<=", ">", ">="]
+    for op in cmps:
+        for k in range(4):
+            out.append(f"def f(a: Qint[2]) -> bool:\n    return a {op} {k}")
+    for op1 in ("!=", "<", ">="):
+        for op2 in ("!=", "==", ">"):
+            for k1 in range(1, 4):
+                for k2 in range(0, 3):
+                    out.append(f"def f(a: Qint[2]) -> Tuple[bool, bool]:\n    return (a {op1} {k1}, a {op2} {k2})")
+    for op in cmps:
+        out.append(f"def f(a: Qint[2], b: Qint[2]) -> bool:\n    return a {op} b")
+        out.append(f"def f(a: Qint[2], b: Qint[2], c: bool) -> Tuple[bool, bool]:\n    return (a {op} b, c or a {op} 1)")
+    for op in ("+", "-", "*", "&", "|", "^"):
+        out.append(f"def f(a: Qint[2], b: Qint[2]) -> Qint[2]:\n    return a {op} b")
+        out.append(f"def f(a: Qint[2], b: Qint[2]) -> bool:\n    return (a {op} b) != 1")
+    return [{"src": s, "origin": "small-int"} for s in out]
+
+
+def exprgen_programs(tier, seed, pairs=False):
     """boolean programs  return <tree>  for the trees enumerated by TLC from spec/ExprGen.tla (predicates: the
     natural inputs of the synthesis checks, in particular of the xor-oracle property)"""
     import random
@@ -56,4 +80,9 @@ def exprgen_programs(tier, seed):
         out.append({"src": program_of(t, k, "ret"), "origin": "ExprGen-program"})
         if k % 4 == 0:
             out.append({"src": program_of(t, k, "var"), "origin": "ExprGen-program"})
+    if pairs:  # two predicates returned together (no input need make both false)
+        from .drivers.mcsynth import tree_src
+        for k in range(0, len(trees) - 1, 2):
+            out.append({"src": "def f(a: bool, b: bool, c: bool) -> Tuple[bool, bool]:\n"
+                               f"    return ({tree_src(trees[k])}, {tree_src(trees[k + 1])})", "origin": "ExprGen-pair"})
     return out
